@@ -293,6 +293,18 @@ def check_cases(ctx, cases):
                 break
         # evolve every attrs field with the value taken from another object of the same kind
         other = build(kind, case["other"])
+        # an id that IS right — for another object that has just been checked and accepted — is as wrong as any
+        # other on this one (the check depends on the object it is given, not on what was checked before)
+        if other.id != o.id and check_outcome(other) == "ok" and check_outcome(o) in ("ok", "valueError"):
+            for holder, borrowed in ((o, other.id), (other, o.id)):
+                try:
+                    bad = attr.evolve(holder, id=borrowed)
+                except ValueError:
+                    continue
+                ctx.count("wrong-ids-borrowed")
+                if check_outcome(bad) != "valueError":
+                    ctx.fail(case, "check() accepts, on one object, the id of another object that was checked before", "wrong-id-accepted:borrowed", {"id": hx(borrowed)})
+                    break
         for f in attr.fields(type(o)):
             if f.name == "id":
                 continue
